@@ -28,7 +28,7 @@ ASSUMPTIONS = ['frames parsed independently from the raw byte log (<q I payload>
 
 
 def budget(tier):
-    return dict(shards=16, examples=30 if tier == 'quick' else 500)
+    return dict(shards=16, examples=60 if tier == 'quick' else 500)
 
 
 @st.composite
